@@ -63,6 +63,7 @@ var corpusC10 = []string{
 	`a == 1 and b == 2`, `a == 1 or b == 2`, `not a == 1`, `not not a == 1`, `(a == 1)`, `( a == 1 )`, `a.b.c == 1`, `a["b"].c == 1`, "a[`b`] == 1", `"/a/b" == 1`,
 	`any a as x { x == 1 }`, `all a as i, v { v != 1 }`, `any a as _, v { v == 1 }`, `all a as i, _ { i == 0 }`, `any "/a" as x { x.b == 1 }`,
 	`a == -1.5`, `a == 0`, `a == "\t\x41é"`, "a == `raw`", `a.0 == 1`, `a/b == 1`, `a == b.c`, `1 in a`, `-1.5 in a`, `a == "/x/y"`,
+	"a == \"x\uFFFDy\"", "a == 1\uFFFD", "a == `\uFFFD`", "a == 1\f", "\va == 1", "a == 1\u00a0", "a == 1\u2028",
 	`a == 1 and (b == 2 or not c in d)`, `a == "é"`, ` a==1 `, "a\t==\n1", `(((((foo == 3)))))`, `(((((((a == 1)))))))`, "a == `x\ry`", `not ((((not (foo in bar)))))`, `((((((a == 1 or b == 2))))))`,
 	// invalid inputs: every error production
 	`(a == 1`, `a == 1x`, `a[1] == 2`, `a["b" == 1`, `a == "x`, "a == `x", `1 in `, `x in 5`, `a == "\q"`, `a ==`, `== 1`, `a = 1`, `any a as _ { x == 1 }`, `a == 01`, `a == 1.`, "a == \"\xff\"", `a is`, `not`, `a == 1 or`, `{`,
